@@ -88,13 +88,13 @@ def histories(tier, seed):
         for rest in itertools.product(steps, repeat=L - 1):
             h = [f] + list(rest)
             # methods: deterministic rotation so that adjacent method pairs vary across histories
-            ms = [cps.METHODS[(k + 5 * i + (i * i)) % 6] for i in range(L)]
+            ms = [(cps.METHODS + ["collect_paths#m1"])[(k + 5 * i + (i * i)) % 7] for i in range(L)]  # '#m1': one member of the group only
             k += 1
             yield [list(s) + [m] for s, m in zip(h, ms)]
     r = random.Random(f"{seed}:C10:long")
     for _ in range(60 if tier == "quick" else 1500):
         n = r.randint(5, 10)
-        yield [[r.choice(GROUPS), r.choice(INST), r.choice(CLOCK + ["+1s", "same"]), r.choice(cps.METHODS)] for _ in range(n)]
+        yield [[r.choice(GROUPS), r.choice(INST), r.choice(CLOCK + ["+1s", "same"]), r.choice(cps.METHODS + ["collect_paths#m1"])] for _ in range(n)]
 
 
 def plan(tier, seed):
@@ -122,8 +122,14 @@ def run_history(h, agg):
             inst = env.new_csvpaths()
         before = cps.tree("archive") if os.path.isdir("archive") else {}
         dirs_before = {gg: set(cps.run_dirs(gg)) for gg in GROUPS}
+        pathsname = g
+        if "#" in method:
+            # the run of a single member, named as group#identity: still a run of that group
+            method, ident_ = method.split("#")
+            if g == GROUPS[0]:
+                pathsname = f"{g}#{ident_}"
         with hooks.fs_recording() as fsev:
-            lines, exc = cps.run_method(inst, method, g, "data")
+            lines, exc = cps.run_method(inst, method, pathsname, "data")
         agg.count("runs")
         agg.count("fs_events", len(fsev))
         w["step"] = si
